@@ -531,8 +531,15 @@ def c15(driver):
     def after_reset(w, pre, ev, obs, post):
         """The evaluation after a completed reset rebuilds the integration
         branches (when there is still something to merge)."""
-        pr1c = [c for c in pre['comments'] if c[0] == 1]
+        # the robot's latest word is "Reset complete" (in this driver every
+        # reset comment is evaluated at once, so a command comment after
+        # that answer has been executed too, answered or not)
+        pr1c = [c for c in pre['comments'] if c[0] == 1 and c[1] == ROBOT]
         if not pr1c or 'Reset complete' not in pr1c[-1][2]:
+            return [], {}
+        tail = [c for c in pre['comments'] if c[0] == 1]
+        tail = tail[max(i for i, c in enumerate(tail) if c[1] == ROBOT) + 1:]
+        if any('reset' not in c[2] for c in tail):
             return [], {}
         pr1 = [p for p in post['prs'] if p['id'] == 1][0]
         h1 = heads(post)
